@@ -2765,3 +2765,83 @@ def node_kmer_iter_e2e(F, rep, rule="L-node-iter", quick=True):
         else:
             rep.holds(rule, key, "NodeKmerIter<%s>: %d scripted interleavings of next()/nth(n) (%d calls) return exactly the node's k-mers in order and "
                       "None from the first step or skip past the end on; a fresh iterator reports %d" % (kty, len(scripts) * len(starts), nrun, count))
+
+
+# ----------------------------------------------------------------------------------------------------------------------
+# generic helpers over `K: Kmer` (free functions of the crate): which trait operation do they implement?  Decided per k-mer type by
+# comparing, bit for bit, the helper's result with the result of the trait operation on the same symbolic inputs.  A helper must be the
+# SAME abstract operation for every k-mer type: one that is `extend_right` for nineteen types and something else for the twentieth is a
+# contradiction (whatever its author meant), and the tables that meet a call to it use the operation it was identified with.
+
+def kmer_helper_lemmas(F, rep, rule="L-helper"):
+    roots = [r for r in F.d.get("roots", []) if r.get("free")]
+    by_fn = {}
+    for r in roots:
+        by_fn.setdefault(r["free"], []).append(r)
+    summary = {}
+    for path, rs in sorted(by_fn.items()):
+        labels = {}
+        detail = {}
+        shape = None
+        for r in rs:
+            kty, key = r["k"], r["key"]
+            body = F.insts.get(key)
+            if body is None:
+                continue
+            try:
+                kt = KType(F, kty)
+                kt.K = kmer_k(F, kt)
+            except Exception:
+                continue
+            lt = [str(x) for x in body["locals"][:body["argc"] + 1]]
+            if not (body["argc"] == 2 and lt[0] == kty and lt[1] in (kty, "&" + kty) and lt[2] == "u8"):
+                shape = "other"
+                break
+            shape = "(K, u8) -> K"
+
+            def mk_args(lt=lt, kt=kt):
+                k = kt.sym("s")
+                return [Ref(Cell(k, "k")) if lt[1].startswith("&") else k, base_arg()]
+            try:
+                got, _ = run_inst(F, key, mk_args())
+                gb = list(kt.storage_of(got).getbits())
+            except (Undecided, Unsupported, Diverge, KeyError, AttributeError) as e:
+                labels[kty] = None
+                detail[kty] = "could not be evaluated: %s" % e
+                continue
+            lab = None
+            for meth in ("extend_right", "extend_left"):
+                try:
+                    ref, _ = run_inst(F, kt.key("Kmer", meth), [Ref(Cell(kt.sym("s"), "self")), base_arg()])
+                    rb = list(kt.storage_of(ref).getbits())
+                except (Undecided, Unsupported, Diverge, KeyError, AttributeError):
+                    continue
+                rep.evaluations += 1
+                if all(b is not TOP for b in gb) and gb == rb:
+                    lab = meth
+                    break
+                if meth == "extend_right":
+                    bad = next((i for i, (x, y) in enumerate(zip(gb, rb)) if x != y), None)
+                    detail[kty] = "bit %s of the result is %s, Kmer::extend_right gives %s" % (
+                        bad, bv.t_str(gb[bad]) if bad is not None and gb[bad] is not TOP else "?", bv.t_str(rb[bad]) if bad is not None else "?")
+            labels[kty] = lab
+        if shape != "(K, u8) -> K" or not labels:
+            continue
+        fname = path.split("::")[-1]
+        counts = {}
+        for kty, lab in labels.items():
+            counts[lab] = counts.get(lab, 0) + 1
+        named = {k: v for k, v in counts.items() if k}
+        if len(named) == 1 and None not in counts:
+            op = next(iter(named))
+            summary[path] = op
+            rep.holds(rule, fname, "%s::<K> is Kmer::%s for all %d k-mer types (bit for bit on symbolic inputs)" % (path, op, len(labels)))
+        elif named:
+            op = max(named, key=named.get)
+            odd = sorted(k for k, l in labels.items() if l != op)
+            rep.violated(rule, fname, "%s::<K> is Kmer::%s for %d k-mer type(s) but not for %s: %s — a generic helper must be the same operation on "
+                         "the K-letter string for every k-mer type; the code that calls it gets a wrong k-mer for that type" % (
+                             path, op, named[op], ", ".join(odd[:3]), detail.get(odd[0], "")), witness={"kind": "helper", "types": odd})
+        # (a helper that matches no known operation stays unknown: tables that meet it are INCONCLUSIVE)
+    F.helper_summary = summary
+    return summary
